@@ -107,6 +107,7 @@ type volumes map[string]*dirNode
 type dirNode struct {
 	children children // children are the nodes present in the directory.
 	baseNode          // baseNode is the common structure of directories, files and symbolic links.
+	removed  bool     // removed is set when the directory is removed : it accepts no new entry.
 }
 
 // children are the children of a directory.
